@@ -183,6 +183,51 @@ impl PSlot {
 pub struct PairEmb {
     pub e1: Embedding,
     pub e2: Embedding,
+    /// weighted family only: the lattice weights are first mapped 0 -> 0, 1 -> 1, w >= 2 -> 2^38
+    /// (then scaled by e2), so that weights of one stream span the whole range the property
+    /// quantifies over; the specification's values are then re-derived from the mapped data by
+    /// `wexact`, the harness's own evaluation of Weighted.tla's definitions
+    pub wmap: bool,
+}
+
+pub const WX_BIG: i64 = 1 << 38;
+
+pub fn wx(w: i64) -> i64 {
+    match w {
+        0 => 0,
+        1 => 1,
+        _ => WX_BIG,
+    }
+}
+
+/// The accessor definitions of Weighted.tla (WeightedMean .. Error, on the ghost data) evaluated in
+/// i128 rationals.  Cross-checked against every value the specification exports
+/// (`oracle_crosschecks`); used alone only under the non-uniform weight map WX.
+pub fn wexact(data: &[(i64, i64)]) -> (HashMap<String, PSpec>, bool) {
+    let n = data.len() as i128;
+    let xs: Vec<i64> = data.iter().map(|p| p.0).collect();
+    let sw: i128 = data.iter().map(|p| p.1 as i128).sum();
+    let sw2: i128 = data.iter().map(|p| (p.1 as i128) * (p.1 as i128)).sum();
+    let swx: i128 = data.iter().map(|p| (p.1 as i128) * (p.0 as i128)).sum();
+    let nan = PSpec::V(SpecVal::NaN);
+    let r = |x: Rat| PSpec::V(SpecVal::R(x));
+    let mut m = HashMap::new();
+    m.insert("sw".to_string(), r(Rat::int(sw)));
+    m.insert("sw2".to_string(), r(Rat::int(sw2)));
+    m.insert("wmean".to_string(), if sw == 0 { nan } else { r(Rat::new(swx, sw)) });
+    m.insert("umean".to_string(), if n > 0 { r(Bag(&xs).mean()) } else { nan });
+    m.insert("efflen".to_string(), if n == 0 { r(Rat::int(0)) } else if sw2 == 0 { nan } else { r(Rat::new(sw.checked_mul(sw).unwrap(), sw2)) });
+    m.insert("pvar".to_string(), if n == 0 { nan } else { r(Bag(&xs).central_sum(2).div(Rat::int(n))) });
+    m.insert("svar".to_string(), if n < 2 { nan } else { r(Bag(&xs).central_sum(2).div(Rat::int(n - 1))) });
+    if sw == 0 || n < 2 {
+        m.insert("vowm".to_string(), nan);
+        m.insert("err".to_string(), nan);
+    } else {
+        let v = Bag(&xs).central_sum(2).div(Rat::int(n - 1)).mul(Rat::new(sw2, sw.checked_mul(sw).unwrap()));
+        m.insert("vowm".to_string(), r(v));
+        m.insert("err".to_string(), if v.is_zero() { r(Rat::int(0)) } else { PSpec::V(SpecVal::Root(1, v)) });
+    }
+    (m, sw == 0)
 }
 
 pub fn weight_scale(name: &str) -> Embedding {
@@ -192,6 +237,8 @@ pub fn weight_scale(name: &str) -> Embedding {
         "W2" => Embedding { name: "W2", a: 0.0, b: p2(18) },
         // far below any absolute epsilon (C16: NaN only when the total weight IS zero)
         "W3" => Embedding { name: "W3", a: 0.0, b: p2(-70) },
+        // with the weight map: {0, 2^-19, 2^19} = {0, 1.9e-6, 5.2e5}
+        "WX" => Embedding { name: "WX", a: 0.0, b: p2(-19) },
         _ => panic!("unknown weight scale {name}"),
     }
 }
@@ -201,7 +248,7 @@ pub fn parse_pair_embs(s: &str, weighted: bool) -> Vec<PairEmb> {
         .filter(|x| !x.is_empty())
         .map(|p| {
             let (a, b) = p.split_once(':').expect("pair embedding Ei:Ej");
-            PairEmb { e1: embedding(a), e2: if weighted { weight_scale(b) } else { embedding(b) } }
+            PairEmb { e1: embedding(a), e2: if weighted { weight_scale(b) } else { embedding(b) }, wmap: weighted && b == "WX" }
         })
         .collect()
 }
@@ -786,6 +833,24 @@ fn run_type<T: PairT>(h: &Value, ops: &[POp], specs: &[PSlot], want: &PWant, rep
         return;
     }
     for e in &want.embs {
+        let mapped: Option<(Vec<POp>, Vec<PSlot>)> = if e.wmap {
+            let ops2 = ops.iter().map(|o| match *o { POp::Add(s, a, b) => POp::Add(s, a, wx(b)), ref x => x.clone() }).collect();
+            let specs2 = specs
+                .iter()
+                .map(|sp| {
+                    let data: Vec<(i64, i64)> = sp.data.iter().map(|p| (p.0, wx(p.1))).collect();
+                    let (vals, wempty) = wexact(&data);
+                    PSlot { n: sp.n, data, vals, wempty }
+                })
+                .collect();
+            Some((ops2, specs2))
+        } else {
+            None
+        };
+        let (ops, specs): (&[POp], &[PSlot]) = match &mapped {
+            Some((o, s)) => (o, s),
+            None => (ops, specs),
+        };
         let r = std::panic::catch_unwind(std::panic::AssertUnwindSafe(|| replay_one::<T>(h, ops, specs, e, want, &mut *rep)));
         if r.is_err() {
             viol::<T>(rep, &want.prop, &want.family, e, h, 0, "panic", "the code under test panicked (new / add / merge / clone / serde)".into(), json!({}));
@@ -816,6 +881,28 @@ pub fn process_line(v: &Value, want: &PWant, rep: &mut Report) {
                     rep.tool_errors.push(format!("oracle disagreement on mean for {:?}", s.data));
                 }
                 rep.crosschecks += 1;
+            }
+        }
+    }
+    // the whole accessor table of the weighted family from the harness's own evaluation
+    if want.family == "weighted" {
+        for s in &specs {
+            let (mine, wempty) = wexact(&s.data);
+            if wempty != s.wempty {
+                rep.tool_errors.push(format!("oracle disagreement on wempty for {:?}", s.data));
+            }
+            for (k, v) in &s.vals {
+                if matches!(v, PSpec::Undef) {
+                    continue;
+                }
+                rep.crosschecks += 1;
+                let same = match (mine.get(k), v) {
+                    (Some(PSpec::V(a)), PSpec::V(b)) => a == b,
+                    _ => false,
+                };
+                if !same {
+                    rep.tool_errors.push(format!("oracle disagreement on {k} for {:?}: specification {:?}, harness {:?}", s.data, v, mine.get(k)));
+                }
             }
         }
     }
